@@ -125,6 +125,13 @@ theorem limit_clip_total (n : Int) (m : Nat) (hn : 0 ≤ n) (hm : 0 < m) :
 
 /-! ## MultiReaderCloser -/
 
+def twoClosers : List Src :=
+  [{ rest := [1, 2], script := [], withData := false, term := .eof, closable := true, closes := 0 },
+   { rest := [3, 4], script := [], withData := true, term := .eof, closable := true, closes := 0 }]
+
+def goodWriter : Wr := { got := [], cap := none, closable := false, closes := 0 }
+
+
 /-- Sources that all end in EOF: the consumer receives exactly their concatenation, then EOF —
 for every script of every source and every sequence of consumer buffer sizes. -/
 theorem multi_concat (srcs : List Src) (bufs : List Nat) (dflt : Nat)
@@ -189,6 +196,19 @@ theorem multi_closes_each_once_writeTo (srcs : List Src) (w : Wr)
   obtain ⟨h4, h5⟩ := Multi.close_counts hI
   exact ⟨by rw [h4]; simp, h5⟩
 
+/-- Any mixture of the two paths, complete or not: after any sequence of `Read`s (any buffer sizes)
+and `WriteTo`s (any writers) followed by `Close`, every closer source has been closed exactly once. -/
+theorem multi_closes_each_once_any_use (srcs : List Src) (ops : List MultiOp)
+    (hc : ∀ s ∈ srcs, s.closes = 0) :
+    (Multi.run .fixed (Multi.new srcs) ops).close.closeCounts
+        = srcs.map (fun s => if s.closable then 1 else 0) := by
+  have hI : Multi.Inv (srcs.map (·.closable)) (Multi.new srcs) :=
+    ⟨hc, by simp [Multi.new], by simp [Multi.new]⟩
+  rw [(Multi.close_counts (Multi.run_inv ops _ hI)).1]; simp
+
+example : (Multi.run .fixed (Multi.new twoClosers) [.read 1, .writeTo goodWriter, .read 3]).close.closeCounts
+    = [1, 1] := by decide
+
 /-- WriteTo path, writer that never fails: the writer receives the concatenation (up to the first
 failing source) and `WriteTo` returns nil exactly when the stream ended in EOF. -/
 theorem multi_writeTo_concat (srcs : List Src) (w : Wr)
@@ -197,12 +217,6 @@ theorem multi_writeTo_concat (srcs : List Src) (w : Wr)
     ((Multi.new srcs).writeTo .fixed w).2.2 = errOfTerm (multiSpec srcs).2 := by
   obtain ⟨h1, h2⟩ := Multi.writeLoop_good srcs [] w hc hw
   exact ⟨by rw [show (Multi.new srcs).writeTo .fixed w = Multi.writeLoop .fixed srcs [] w from rfl, h1], h2⟩
-
-def twoClosers : List Src :=
-  [{ rest := [1, 2], script := [], withData := false, term := .eof, closable := true, closes := 0 },
-   { rest := [3, 4], script := [], withData := true, term := .eof, closable := true, closes := 0 }]
-
-def goodWriter : Wr := { got := [], cap := none, closable := false, closes := 0 }
 
 /-- Code as found: `io.Copy(w, NewMultiReaderCloser(a, b))` then `Close` copies everything but
 leaves both sources unclosed (replayed on the implementation by the harness). -/
